@@ -43,6 +43,8 @@ type family struct {
 	Sets    [][]outAttr
 	Classes [][3]int // (acct, asset, vote) triples Reserve ranges over
 	OneTTL  bool     // Reserve only with the later expiry (ReserveParticular always ranges over both)
+	Events  bool     // presence events confirm / addUnconfirmed / removeUnconfirmed / unconfirm on every output
+	MaxAmt  uint64   // largest Reserve amount (0 = 8)
 	Depth   int
 }
 
@@ -132,7 +134,26 @@ func families(run *ev.Run) []family {
 		lTypesC = append(lTypesC, outAttr{Mature: true, Pres: presConfirmed, Amount: amt})
 	}
 
+	// P: presence changes DURING the sequence (confirm / addUnconfirmed / removeUnconfirmed / unconfirm on
+	// every output): small sets of one class, every initial placement.
+	var pTypes, pTypesMature []outAttr
+	for _, amt := range []uint64{1, 2} {
+		for _, mat := range []bool{true, false} {
+			for pres := 0; pres < 3; pres++ {
+				t := outAttr{Mature: mat, Pres: pres, Amount: amt}
+				pTypes = append(pTypes, t)
+				if mat {
+					pTypesMature = append(pTypesMature, t)
+				}
+			}
+		}
+	}
+
 	var fs []family
+	fs = append(fs, family{Name: "P<=2:presence-events", Sets: setsOver(pTypes, 2, 1), Classes: tClasses, Events: true, MaxAmt: 5, Depth: depth})
+	if run.Thorough() {
+		fs = append(fs, family{Name: "P=3:presence-events", Sets: setsOver(pTypesMature, 3, 3), Classes: tClasses[:1], OneTTL: true, Events: true, MaxAmt: 7, Depth: depth})
+	}
 	if !run.Thorough() {
 		fs = append(fs,
 			family{Name: "S<=2:all-types", Sets: setsOver(sTypesAll, 2, 0), Classes: sClasses, Depth: depth},
@@ -156,7 +177,11 @@ func families(run *ev.Run) []family {
 func alphabet(f *family, n int) []op {
 	var ops []op
 	for _, c := range f.Classes {
-		for amt := uint64(1); amt <= 8; amt++ {
+		maxAmt := uint64(8)
+		if f.MaxAmt > 0 {
+			maxAmt = f.MaxAmt
+		}
+		for amt := uint64(1); amt <= maxAmt; amt++ {
 			for _, u := range []bool{false, true} {
 				for ttl := range ttlValues {
 					if f.OneTTL && ttl != len(ttlValues)-1 {
@@ -180,6 +205,13 @@ func alphabet(f *family, n int) []op {
 	for _, t := range expireAt {
 		ops = append(ops, op{Kind: opExpire, T: t})
 	}
+	if f.Events {
+		for o := 0; o < n; o++ {
+			for _, k := range []int{opConfirm, opAddUnconfirmed, opRemoveUnconfirmed, opUnconfirm} {
+				ops = append(ops, op{Kind: k, Out: o})
+			}
+		}
+	}
 	return ops
 }
 
@@ -189,47 +221,78 @@ type fixture struct {
 	ids  []bc.Hash
 	byID map[bc.Hash]int
 	k    *account.VerifKeeper
+	db   *crashkv.DB
+	raw  [][]byte // the wallet-db record of every output
+}
+
+// record builds a fresh wallet record of output i (what the wallet would store / announce).
+func (fx *fixture) record(i int) *account.UTXO {
+	a := fx.set[i]
+	u := &account.UTXO{
+		OutputID:            fx.ids[i],
+		SourceID:            bc.NewHash([32]byte{byte(i + 1), 0x5c}),
+		AssetID:             assetIDs[a.Asset],
+		Amount:              a.Amount,
+		SourcePos:           uint64(i),
+		ControlProgram:      []byte{0x00, 0x14, byte(i)},
+		AccountID:           acctNames[a.Acct],
+		ControlProgramIndex: uint64(i + 1),
+		ValidHeight:         chainHeight, // mature exactly at the boundary
+	}
+	if a.Vote == 1 {
+		u.Vote = append([]byte{}, voteKeys[1]...)
+	}
+	if !a.Mature {
+		u.ValidHeight = chainHeight + 1
+	}
+	return u
+}
+
+// presence events, executed the way the wallet executes them
+func (fx *fixture) dbPut(i int)    { fx.db.Set(account.StandardUTXOKey(fx.ids[i]), fx.raw[i]) }
+func (fx *fixture) dbDelete(i int) { fx.db.Delete(account.StandardUTXOKey(fx.ids[i])) }
+func (fx *fixture) dbHas(i int) bool {
+	return fx.db.Get(account.StandardUTXOKey(fx.ids[i])) != nil
+}
+func (fx *fixture) addUnconfirmed(i int) { fx.k.AddUnconfirmed([]*account.UTXO{fx.record(i)}) }
+func (fx *fixture) removeUnconfirmed(i int) {
+	h := fx.ids[i]
+	fx.k.RemoveUnconfirmed([]*bc.Hash{&h})
+}
+
+// implPresence reads the presence of every output back from the wallet db and the keeper.
+func (fx *fixture) implPresence() string {
+	b := make([]byte, len(fx.ids))
+	for i, h := range fx.ids {
+		b[i] = "-UCB"[b2i(fx.k.HasUnconfirmed(h))+2*b2i(fx.dbHas(i))]
+	}
+	if n := fx.k.UnconfirmedCount(); n > len(fx.ids) {
+		return string(b) + "+foreign"
+	}
+	return string(b)
 }
 
 func outputID(i int) bc.Hash { return bc.NewHash([32]byte{byte(i + 1), 0xc2, 0x6f}) }
 
 func newFixture(set []outAttr) *fixture {
-	fx := &fixture{set: set, byID: map[bc.Hash]int{}}
-	db := crashkv.New()
-	fx.k = account.VerifNewKeeper(func() uint64 { return chainHeight }, db)
-	for i, a := range set {
+	fx := &fixture{set: set, byID: map[bc.Hash]int{}, db: crashkv.New()}
+	fx.k = account.VerifNewKeeper(func() uint64 { return chainHeight }, fx.db)
+	for i := range set {
 		id := outputID(i)
 		fx.ids = append(fx.ids, id)
 		fx.byID[id] = i
-		mk := func() *account.UTXO {
-			u := &account.UTXO{
-				OutputID:            id,
-				SourceID:            bc.NewHash([32]byte{byte(i + 1), 0x5c}),
-				AssetID:             assetIDs[a.Asset],
-				Amount:              a.Amount,
-				SourcePos:           uint64(i),
-				ControlProgram:      []byte{0x00, 0x14, byte(i)},
-				AccountID:           acctNames[a.Acct],
-				ControlProgramIndex: uint64(i + 1),
-				ValidHeight:         chainHeight, // mature exactly at the boundary
-			}
-			if a.Vote == 1 {
-				u.Vote = append([]byte{}, voteKeys[1]...)
-			}
-			if !a.Mature {
-				u.ValidHeight = chainHeight + 1
-			}
-			return u
+		raw, err := json.Marshal(fx.record(i))
+		if err != nil {
+			ev.Fatal("marshal utxo: %v", err)
 		}
+		fx.raw = append(fx.raw, raw)
+	}
+	for i, a := range set {
 		if a.Pres == presConfirmed || a.Pres == presBoth {
-			raw, err := json.Marshal(mk())
-			if err != nil {
-				ev.Fatal("marshal utxo: %v", err)
-			}
-			db.Set(account.StandardUTXOKey(id), raw)
+			fx.dbPut(i)
 		}
 		if a.Pres == presUnconfirmed || a.Pres == presBoth {
-			fx.k.AddUnconfirmed([]*account.UTXO{mk()})
+			fx.addUnconfirmed(i)
 		}
 	}
 	return fx
@@ -361,8 +424,12 @@ func exploreSet(run *ev.Run, f *family, set []outAttr) *setResult {
 	ops := alphabet(f, len(set))
 	seenKey := map[string]bool{}
 
-	nodes := []*node{{snap: fx.k.Snapshot(), model: &mstate{}, parent: -1}}
-	seen := map[string]bool{fx.implDigest(fx.k.Reservations(), fx.k.Reserved()): true}
+	nodes := []*node{{snap: fx.k.Snapshot(), model: newModel(set), parent: -1}}
+	rootDigest := fx.implDigest(fx.k.Reservations(), fx.k.Reserved())
+	if f.Events {
+		rootDigest += "|" + fx.implPresence()
+	}
+	seen := map[string]bool{rootDigest: true}
 	res.states = 1
 
 	history := func(n int, last *op) []string {
@@ -399,6 +466,17 @@ func exploreSet(run *ev.Run, f *family, set []outAttr) *setResult {
 			o := ops[oi]
 			if !fx.k.Unchanged(nd.snap) {
 				fx.k.Restore(nd.snap)
+			}
+			if f.Events { // put the wallet db back as well (the unconfirmed set is part of the keeper snapshot)
+				for i := range set {
+					if has := fx.dbHas(i); has != nd.model.db[i] {
+						if has {
+							fx.dbDelete(i)
+						} else {
+							fx.dbPut(i)
+						}
+					}
+				}
 			}
 			m := nd.model.clone()
 			res.transitions++
@@ -511,6 +589,28 @@ func exploreSet(run *ev.Run, f *family, set []outAttr) *setResult {
 				} else {
 					outcome = "cancel:noop"
 				}
+			case opConfirm, opAddUnconfirmed, opRemoveUnconfirmed, opUnconfirm:
+				i := o.Out
+				outcome = opKindName[o.Kind] + ":was-" + string("-UCB"[b2i(m.unc[i])+2*b2i(m.db[i])])
+				if _, held := m.holder(i); held {
+					outcome += "+reserved"
+				}
+				switch o.Kind {
+				case opConfirm: // wallet attaches a block: save the output, then the pool-removal event
+					fx.dbPut(i)
+					fx.removeUnconfirmed(i)
+					m.setPresence(i, true, false)
+				case opAddUnconfirmed:
+					fx.addUnconfirmed(i)
+					m.setPresence(i, m.db[i], true)
+				case opRemoveUnconfirmed:
+					fx.removeUnconfirmed(i)
+					m.setPresence(i, m.db[i], false)
+				case opUnconfirm: // wallet detaches a block: delete the output, the transaction is back in the pool
+					fx.dbDelete(i)
+					fx.addUnconfirmed(i)
+					m.setPresence(i, false, true)
+				}
 			case opExpire:
 				fx.k.Expire(instant(o.T))
 				removed, before := 0, len(m.live)
@@ -538,9 +638,16 @@ func exploreSet(run *ev.Run, f *family, set []outAttr) *setResult {
 				rs, idx := fx.k.Reservations(), fx.k.Reserved()
 				res.checks++
 				if key, what := fx.checkState(m, rs, idx); key != "" {
-					report(key+"-after-"+[]string{"reserve", "particular", "cancel", "expire"}[o.Kind], what, map[string]interface{}{"model_live_after": m.describe(), "keeper": fx.implDigest(rs, idx)})
+					report(key+"-after-"+opKindName[o.Kind], what, map[string]interface{}{"model_live_after": m.describe(), "keeper": fx.implDigest(rs, idx)})
 				}
 				digest = fx.implDigest(rs, idx)
+				if f.Events {
+					pres := fx.implPresence()
+					if pres != m.presence() {
+						report("presence-diverges-after-"+opKindName[o.Kind], "wallet db / unconfirmed set hold "+pres+", expected "+m.presence()+" (per output: C db, U unconfirmed, B both, - neither)", nil)
+					}
+					digest += "|" + pres
+				}
 			}
 			if bad {
 				res.outcomes["violation"]++
@@ -607,7 +714,7 @@ func (fx *fixture) checkSelection(m *mstate, o op, r *account.VerifReservation) 
 			return "selected-unknown-output", "selected output " + u.OutputID.String() + " is not in the wallet"
 		}
 		if seen[i] {
-			if fx.set[i].Pres == presBoth && o.UseU {
+			if m.db[i] && m.unc[i] && o.UseU {
 				return keyBothTwice, fmt.Sprintf("output #%d (confirmed and unconfirmed) appears twice in one reservation", i)
 			}
 			return "reservation-holds-output-twice", fmt.Sprintf("output #%d appears twice in one reservation", i)
@@ -623,7 +730,10 @@ func (fx *fixture) checkSelection(m *mstate, o op, r *account.VerifReservation) 
 		if !a.Mature {
 			return "selected-immature", fmt.Sprintf("output #%d is immature at height %d", i, chainHeight)
 		}
-		if !visible(a, o.UseU) {
+		if !m.db[i] && !m.unc[i] {
+			return "selected-output-not-in-wallet", fmt.Sprintf("output #%d is neither in the wallet db nor in the unconfirmed set", i)
+		}
+		if !m.visible(i, o.UseU) {
 			return "selected-unconfirmed-without-flag", fmt.Sprintf("output #%d is unconfirmed-only and use_unconfirmed is false", i)
 		}
 		if _, held := m.holder(i); held {
